@@ -162,6 +162,12 @@ func VerifAnthropicRoute() {
 	}
 
 	// ---- C05: what the client sees
+	if stream && !wantPassthrough {
+		// the streamed translation path has its own job (C05 anthropic-stream-route); the scripted
+		// engine of this harness answers in the buffered dialect
+		gosym.Reach("translation-streaming")
+		return
+	}
 	if wantPassthrough {
 		// the engine's response is relayed as is; an engine error with nothing written must become an error
 		if behaviour == zzBackendErr {
